@@ -24,7 +24,7 @@ OPS = ["construct", "construct-empty", "construct-union", "copy-holder", "bind-o
        "write-through-ref", "write-through-original", "grow"]
 FLOORS = {"histories": 1500, "steps": 20000, "slot_resolutions": 100000, "growths": 1000, "alias_checks": 20000,
           "null_checks": 20000, "raw_null_union_checks": 3000, "live_extent_checks": 30000,
-          "empty_nd_reference_arrays": 300, "copy_same_buffer": 300, "copy_other_buffer": 300, "toplevel_union_get": 3000, "second_handle_resolutions": 50000, "copies_of_holders_with_default_targets": 200}
+          "empty_nd_reference_arrays": 300, "copy_same_buffer": 300, "copy_other_buffer": 300, "toplevel_union_get": 3000, "second_handle_resolutions": 50000, "copies_of_holders_with_default_targets": 200, "arrays_of_items_with_default_targets": 300}
 FLOORS.update({"op:" + o: 800 for o in OPS})
 FLOORS["op:bind-other-type"] = 150
 RULE = ("generated reference-bearing types (Ref and UnionRef as struct fields and as array items, referents that hold "
@@ -109,9 +109,13 @@ def gen_types(rng, tg):
     d2, o2 = nd_dims()
     E1 = {"k": "ar", "n": tg.name("E"), "it": {"k": "ref", "to": rng.choice([P, Q])}, "dims": d1, "ord": o1}
     E2 = {"k": "ar", "n": tg.name("E"), "it": U, "dims": d2, "ord": o2}
+    # an array of structs whose reference field declares a non-null default target: created without values, every
+    # item must get a target of its own
+    N = {"k": "st", "n": tg.name("N"), "f": [["v", sc("Int64")], ["r", {"k": "ref", "to": Q}]], "dflt": {"r": [1, 2, 3]}}
+    E3 = {"k": "ar", "n": tg.name("E"), "it": N, "dims": [rng.choice([None, 2, 3])], "ord": [0]}
     # a class that is NOT the declared target of Ref[Q] but holds compatible data (same items, other extents declaration)
     Qx = {"k": "ar", "n": tg.name("Qx"), "it": Q["it"], "dims": [None] if Q["dims"][0] is not None else [rng.choice([1, 2, 3])], "ord": [0]}
-    return dict(P=P, Q=Q, R=R, U=U, E1=E1, E2=E2, Qx=Qx), holders
+    return dict(P=P, Q=Q, R=R, U=U, E1=E1, E2=E2, Qx=Qx, N=N, E3=E3), holders
 
 
 class Graph:
@@ -353,14 +357,23 @@ def _step(G, op, rng, vg, tt, holders, holders_live, fresh):
         G.hist.append(["construct", t["n"], f"#{o.i}", "A" if env is envA else "B"])
         return True
     if op == "construct-empty":
-        t = rng.choice([tt["E1"], tt["E2"]])
+        t = rng.choice([tt["E1"], tt["E2"], tt["E3"]])
         env = envA if rng.random() < 0.7 else envB
         shape = [d if d is not None else rng.randint(1, 3) for d in t["dims"]]
-        pv = AVal(shape, {idx: None for idx in np.ndindex(*shape)})
+        if t is tt["E3"]:
+            from xv.typegen import DT
+            qd = DT[tt["Q"]["it"]["t"]]
+            pv = AVal(shape, {idx: {"v": np.int64(0), "r": AVal((3,), {(i,): qd.type(i + 1) for i in range(3)})}
+                              for idx in np.ndindex(*shape)})
+            G.w.count("arrays_of_items_with_default_targets")
+        else:
+            pv = AVal(shape, {idx: None for idx in np.ndindex(*shape)})
         n0 = G.n
         o = G.new(t, pv, env)
         dyn = [sh for sh, d in zip(shape, t["dims"]) if d is None]
         o.h = build(t, G.cache)(*dyn, _buffer=env.buf)
+        if t is tt["E3"]:
+            G.attach(o)
         fresh.extend(range(n0 + 1, G.n + 1))
         G.w.count("empty_reference_slots", int(np.prod(shape)))
         if len(shape) > 1:
